@@ -82,7 +82,7 @@ TAG_RULES = [
     (r'delta_list::fn lemma_sells_', ['C05']),
     (r'delta_list::fn (lemma_step_scales|lemma_scale_|lemma_ratio_scale_invariant)', ['C15']),
     (r'delta_list::fn lemma_opening_equiv', ['C16']),
-    (r'delta_list::fn get_delta_superficial_loss_info', ['C02']),
+    (r'delta_list::fn get_delta_superficial_loss_info', ['C02', 'C03']),
     (r'delta_list::fn sanity_check_ptfs', ['C04']),
     (r'delta_list::fn delta_for_tx', ['C01', 'C03']),
     (r'delta_list::', ['C01']),
